@@ -253,10 +253,21 @@ Fixpoint module_flags_loop (fuel : nat) (s : list N) : outcome (list N) :=
     else Err E_UNKNOWN
   end.
 
+(* stream.starts_with(&[a, b]): false when fewer than two bytes are left *)
+Definition starts_with2 (a b : N) (s : list N) : bool :=
+  match s with
+  | x :: y :: _ => (x =? a) && (y =? b)
+  | _ => false
+  end.
+
 Definition read_module (cp : N) (s : list N) : outcome (module * list N) :=
   do (name, s) <- check_variable_record 0x0019 s;
   let name := decode cp name in
-  do (_, s) <- check_variable_record 0x0047 s;
+  (* MODULENAMEUNICODE is optional (MS-OVBA 2.3.4.2.3.2):
+     if stream.starts_with(&[0x47, 0x00]) { check_variable_record(0x0047, stream)?; } *)
+  do s <- (if starts_with2 0x47 0x00 s
+           then do (_, s) <- check_variable_record 0x0047 s; Ok s
+           else Ok s);
   do (stream_name, s) <- check_variable_record 0x001A s;
   let stream_name := decode cp stream_name in
   do (_, s) <- check_variable_record 0x0032 s;
@@ -377,8 +388,10 @@ Inductive ref_kind :=
    is optional"); without it the name fields are not written *)
 Record ref_spec := mkrs { rs_named : bool; rs_name : list N; rs_name_u : list N; rs_kind : ref_kind }.
 
+(* [ms_name_u]: the MODULENAMEUNICODE record (0x0047) is optional in a MODULE record (MS-OVBA
+   2.3.4.2.3.2: MODULENAME [MODULENAMEUNICODE] MODULESTREAMNAME …); [None] = not written *)
 Record mod_spec := mkms {
-  ms_name : list N; ms_name_u : list N;
+  ms_name : list N; ms_name_u : option (list N);
   ms_stream : list N; ms_stream_u : list N;
   ms_doc : list N; ms_doc_u : list N;
   ms_offset : N; ms_helpctx : N; ms_cookie : N;
@@ -414,7 +427,8 @@ Definition enc_ref (r : ref_spec) : list N :=
   enc_ref_kind (rs_kind r).
 
 Definition enc_mod (m : mod_spec) : list N :=
-  var_rec 0x0019 (ms_name m) ++ var_rec 0x0047 (ms_name_u m) ++
+  var_rec 0x0019 (ms_name m) ++
+  (match ms_name_u m with Some nu => var_rec 0x0047 nu | None => [] end) ++
   var_rec 0x001A (ms_stream m) ++ var_rec 0x0032 (ms_stream_u m) ++
   var_rec 0x001C (ms_doc m) ++ var_rec 0x0048 (ms_doc_u m) ++
   le16 0x0031 ++ le32 4 ++ le32 (ms_offset m) ++
@@ -485,6 +499,8 @@ Fixpoint expected_refs (cp : N) (rs : list ref_spec) : option (list reference) :
     opt_bind (expected_refs cp rest) (fun tl => Some (x :: tl)))
   end.
 
+(* the module name is the text of the MODULENAME record (0x0019) decoded with the project's
+   code page, whether or not the optional MODULENAMEUNICODE record is written *)
 Definition expected_mod (cp : N) (m : mod_spec) : module :=
   mkmod (decode cp (ms_name m)) (decode cp (ms_stream m)) (ms_offset m).
 End Expected.
@@ -507,7 +523,8 @@ Definition valid_refb (r : ref_spec) : bool :=
   (if rs_named r then lenb (rs_name r) && lenb (rs_name_u r) else true) &&
   valid_ref_kindb (rs_kind r).
 Definition valid_modb (m : mod_spec) : bool :=
-  lenb (ms_name m) && lenb (ms_name_u m) && lenb (ms_stream m) && lenb (ms_stream_u m) &&
+  lenb (ms_name m) && (match ms_name_u m with Some nu => lenb nu | None => true end) &&
+  lenb (ms_stream m) && lenb (ms_stream_u m) &&
   lenb (ms_doc m) && lenb (ms_doc_u m) && u32b (ms_offset m) && u32b (ms_helpctx m) &&
   u16b (ms_cookie m).
 Definition valid_projb (p : proj) : bool :=
